@@ -65,6 +65,11 @@ pub fn run(args: &Args, rep: &mut Report) {
     std::panic::set_hook(Box::new(|_| {}));
     let miri = cfg!(miri);
     let t = args.tier_thorough;
+    if args.case.as_deref() == Some("direct") {
+        let d: Vec<u8> = args.get("bytes").unwrap_or("").split(',').filter_map(|x| x.trim().parse().ok()).collect();
+        check(rep, args, &d, "direct");
+        return;
+    }
     // exhaustive: (alphabet, max length)
     let a4: Vec<u8> = (0..4).collect();
     let a6: Vec<u8> = (0..6).collect();
